@@ -404,13 +404,13 @@ theorem alpha_facts : isAlpha '/' = false ∧ isAlpha '!' = false ∧ isAlpha '?
 theorem entCh_semicolon : isEntCh ';' = false := by decide
 theorem digit_semicolon : isDigit ';' = false := by decide
 
-theorem isWs_of_alpha (c : Char) (h : isAlpha c = true) : isWs c = false := by
-  cases hw : isWs c with
-  | false => rfl
-  | true =>
-    exfalso
-    simp only [isWs, Bool.or_eq_true, decide_eq_true_eq] at hw
-    rcases hw with (((((((((e|e)|e)|e)|e)|e)|e)|e)|e)|e) <;> (subst e; revert h; decide)
+theorem isWs_of_alpha (c : Char) (h : isAlpha c = true) : isWs c = false :=
+  isWs_false_of (p := isAlpha) (by decide) h
+
+/-- the separators the serialisers put after a tag name end the name for the tokenizer -/
+theorem tagNameEnds_facts (r : Str) :
+    tagNameEnds (' ' :: r) = true ∧ tagNameEnds ('>' :: r) = true ∧ tagNameEnds ('/' :: r) = true := by
+  simp [tagNameEnds, isTagEnd]
 
 /-- what may follow a token in a rendering: after a data run, nothing or something that opens markup or a
     reference; after the data singleton `<`, a character that cannot open markup; after `&`, one that cannot
@@ -587,7 +587,7 @@ theorem lexOne_render (t : Token) (h : TokOK t) (rest : Str) (hf : Follows t res
     rw [hrender, htail]
     rw [htail] at hA
     simp only [List.cons_append] at hsp
-    simp [lexOne, hca, hsp, hA, hlow, hraw]
+    simp [lexOne, hca, hsp, hA, hlow, hraw, (tagNameEnds_facts _).1]
   | startend n a =>
     obtain ⟨⟨⟨c, cs, rfl, hca⟩, hall, hlow⟩, hattrs⟩ := h
     obtain ⟨tc, tr, htail, _, _⟩ := tail_head a hattrs true rest
@@ -601,7 +601,7 @@ theorem lexOne_render (t : Token) (h : TokOK t) (rest : Str) (hf : Follows t res
     rw [hrender, htail]
     rw [htail] at hA
     simp only [List.cons_append] at hsp
-    simp [lexOne, hca, hsp, hA, hlow]
+    simp [lexOne, hca, hsp, hA, hlow, (tagNameEnds_facts _).1]
 
 /-- the token block a raw-text element (`script` / `style`) is read as: start tag, the content as ONE data token
     (none when the content is empty), end tag -/
@@ -635,7 +635,7 @@ theorem lexOne_render_raw (n : Str) (a : List Attr) (raw rest : Str) (hraw : isR
   rw [hrender, htail]
   rw [htail] at hA
   simp only [List.cons_append] at hsp
-  simp only [lexOne, hca, if_true, hsp, hA, hlow, Bool.false_eq_true, if_false, hraw, hR, rawBlock]
+  simp only [lexOne, hca, if_true, hsp, (tagNameEnds_facts _).1, Bool.not_true, hA, hlow, Bool.false_eq_true, if_false, hraw, hR, rawBlock]
 
 /-! ### whole token lists -/
 
